@@ -76,6 +76,18 @@ CHECKS = {
              "model, the abstract machine, and directly with what GetKeys/Get return.",
         design="7/C14", technique="Coq invariant proof (content liveness) + disk-walk correspondence run",
         note="Fault-free histories without late writes (finding D7 leaks a file until restart). " + NOTE_COMMON),
+    "C07": dict(
+        text="Theorem (Coq, on the abstract machine, any number of other transactions and writers in between): if two transactions "
+             "open at the same time wrote a common key and one commits, the other - if RR/SER - fails with ErrTxSerialization "
+             "whenever it commits (C07_first_committer_wins, via monotone dirty sets), and the loser leaves nothing behind; the "
+             "model's commit is the abstract commit (simulation). The pinned tree's two-phase commit violated this "
+             "(C07_first_committer_wins_refuted_orig; defect D8 reproduced on the real code with a pause point after the conflict "
+             "test: both commits returned nil) and was repaired by a fix: commit making test+publication one critical section. "
+             "Tie: 2-3 concurrent committers (+ autocommit writer) with intersecting write sets, all paused after their conflict "
+             "test until all have arrived; the outcome must have at most one winner and equal one sequential order of the model.",
+        design="7/C07", technique="Coq proof (spec-level invariant + simulation) + adversarial schedule replay through a pause point",
+        note="Atomicity of a critical section under the write lock is assumed (Go runtime). On the real code only the adversarial "
+             "schedule per case is explored; the theorem covers all orders. " + NOTE_COMMON),
     "C09": dict(
         text="Theorems (Coq): for every sequential history the outputs of all non-collector operations equal those of the history "
              "with every collection/drain removed (C09_gc_transparent); a collection pass and a drain keep the model related to "
